@@ -8,6 +8,7 @@ Import ListNotations.
 (* the frame of the write_frame call in progress that has not been logged yet *)
 Definition in_hand (p : pc) : list frame :=
   match p with
+  | PW0 WkPump _ => []       (* taken from the channel, write_frame not yet past its closed check: not yet submitted *)
   | PW0 _ f | PW1 _ f | PW2 _ f | PW2wait _ f | PW3 _ f => [f]
   | _ => []
   end.
@@ -64,13 +65,31 @@ Proof.
            | |- context [match ?x with _ => _ end] => destruct x eqn:?
            end; try reflexivity;
     try (apply sub_set_task_keep; reflexivity);
-    try apply sub_enter_close; try apply sub_set_pc.
+    try apply sub_enter_close; try apply sub_set_pc;
+    try (rewrite sub_enter_close; apply (mark_keeps (table s) (tasks s) u)).
 Qed.
 
+Lemma sub_wake s u : t_sub (tasks (wake_pump_closed s) u) = t_sub (tasks s u).
+Proof.
+  unfold wake_pump_closed. destruct (pump_owner s) as [p|]; [|reflexivity].
+  destruct (is_ppwait (t_pc (tasks s p))); [|reflexivity]. apply (sub_finish s p ResClosed u).
+Qed.
+Lemma sub_push s t f u : t_sub (tasks (push_item s t f) u) = t_sub (tasks s u).
+Proof.
+  unfold push_item. set (s1 := set_pump s (dq s) (pushed s ++ [(t, f)]) (pump_owner s) (pump_done s)).
+  destruct (pump_owner s) as [p|]; [|reflexivity].
+  destruct (is_ppwait (t_pc (tasks s p))); [destruct (closed s)|]; try reflexivity.
+  - apply (sub_finish s1 p ResClosed u).
+  - apply (sub_set_task_keep s1 p). reflexivity.
+Qed.
+Arguments push_item : simpl never.
+Arguments wake_pump_closed : simpl never.
+
 Ltac subtac Hw :=
+  cbn [tasks set_pump set_dq set_pump_done];
   repeat first [ rewrite sub_finish_w | rewrite sub_finish | rewrite sub_set_pc | rewrite sub_finish_close
-               | rewrite sub_enter_close | rewrite sub_feed ];
-  cbn [tasks set_task set_tasks set_table set_buffering set_failing set_flags set_queue set_lock set_wire set_shut set_closed];
+               | rewrite sub_enter_close | rewrite sub_feed | rewrite sub_wake | rewrite sub_push ];
+  cbn [tasks set_task set_tasks set_table set_buffering set_failing set_flags set_queue set_lock set_wire set_shut set_closed set_pump set_dq set_pump_done];
   rewrite ?upd_other by exact Hw; try reflexivity.
 
 Lemma step_other_sub s t s' w :
@@ -93,11 +112,12 @@ Proof.
     + rewrite sub_set_pc. unfold release. rewrite sub_release_ws. reflexivity.
     + rewrite sub_finish_w. unfold release. rewrite sub_release_ws. reflexivity.
   - inversion H; subst; subtac Hw.
-  - inversion H; subst. rewrite sub_set_pc. cbn. apply sub_drain.
+  - cbv zeta in H. inversion H; subst. rewrite sub_set_pc. cbn [tasks set_table set_tasks]. rewrite sub_drain. apply sub_wake.
   - destruct (wr s); inversion H; subst; subtac Hw.
   - discriminate.
   - inversion H; subst; subtac Hw.
   - inversion H; subst; subtac Hw.
+  - discriminate.
 Qed.
 
 (* ---- a step of ANOTHER task leaves a task's record intact ---- *)
@@ -110,7 +130,7 @@ Proof.
   { destruct (step_lin_point s u s' HI H) as [E|(k & f & _ & E)]; rewrite E; [reflexivity|].
     rewrite mine_app, mine_other by (intros X; apply Hne; symmetry; exact X). apply app_nil_r. }
   rewrite EL. f_equal.
-  destruct (step_others s u s' HI H t Hne) as [[E|[(k & f & A & B)|(a & k & A & B & _)]]|(_ & A & [B|B])];
+  destruct (step_others s u s' HI H t Hne) as [[E|[(k & f & A & B)|(a & k & A & B & _)]]|[(_ & A & [B|B])|(A & [B|[f B]])]];
     try (rewrite E; reflexivity); rewrite A, B; reflexivity.
 Qed.
 
@@ -166,9 +186,33 @@ Proof.
       assert (t_sub (tasks s0 t) = t_sub (tasks s t)) as S0 by (unfold s0; cbn; rewrite upd_same; reflexivity).
       rewrite S0. change (lin (finish (feed_ev s0 ev) t ResOk)) with (lin (feed_ev s0 ev)).
       destruct (feed_class s0 ev) as ((_ & _ & L & _) & _). rewrite L. exact O.
-  - (* PW0 *)
-    rewrite C in H. destruct (buffering s); inversion H; subst;
-      rewrite (pcof_of_pcu _ _ _ _ (pcu_set_pc s t _)), sub_set_pc; exact O.
+    + (* CSend: the push *)
+      apply (order_finish s).
+      * destruct (data_push s0 t (psh_frame n payload)) as (_ & _ & L & _). rewrite L. reflexivity.
+      * rewrite sub_push. unfold s0. cbn. rewrite upd_same. reflexivity.
+      * exact O.
+    + (* CPump parks in recv() *)
+      destruct (pcof_sub_set_task s0 t (with_pc x PPwait)) as [P S]. rewrite P, S.
+      cbn [t_pc with_pc in_hand t_sub lin set_task set_tasks]. rewrite app_nil_r, X. exact O.
+    + (* CPump, the closed flag is seen: excluded, the session is open *)
+      congruence.
+    + (* CPump takes an item: not yet submitted *)
+      match goal with |- context [set_task ?Y t ?v] => destruct (pcof_sub_set_task Y t v) as [P S] end.
+      rewrite P, S. cbn [t_pc with_pc in_hand t_sub lin set_task set_tasks set_dq set_pump]. rewrite app_nil_r, X. exact O.
+    + (* CPump takes the receiver *)
+      apply (order_finish s); [reflexivity | unfold s0; cbn; rewrite upd_same; reflexivity | exact O].
+  - (* PW0: a frame the pump took is recorded as submitted here *)
+    rewrite C in H.
+    assert (forall p, mine t (lin s) ++ in_hand (PW0 k f) = t_sub (tasks s t) ->
+                      (forall k' f', p k' f' = PW1 k' f' \/ p k' f' = PW2 k' f') ->
+                      mine t (lin s) ++ in_hand (p k f) = t_sub (sub_if_pump k (tasks s t) f)) as G.
+    { intros p O1 Hp. destruct (Hp k f) as [->| ->]; destruct k; cbn [in_hand sub_if_pump t_sub with_sub] in *;
+        try exact O1; rewrite app_nil_r in O1; rewrite O1; reflexivity. }
+    destruct (buffering s); inversion H; subst;
+      match goal with |- context [set_task s t ?v] => destruct (pcof_sub_set_task s t v) as [P S] end;
+      rewrite P, S; cbn [t_pc with_pc t_sub lin set_task set_tasks].
+    + apply (G PW1 O). intros; left; reflexivity.
+    + apply (G PW2 O). intros; right; reflexivity.
   - (* PW1 *)
     inversion H; subst. rewrite (pcof_of_pcu _ _ _ _ (pcu_finish_w _ t k _)), sub_finish_w.
     destruct (data_finish_w (set_queue s (pending s ++ [(t, f)]) (lin s ++ [(t, f)])) t k ResOk) as (_ & _ & L & _).
@@ -202,8 +246,9 @@ Proof.
     inversion H; subst. rewrite sub_enter_close. unfold enter_close in *. rewrite C in *.
     rewrite (pcof_of_pcu _ _ _ _ (pcu_set_pc (set_closed s) t _)). exact O.
   - (* PC1 *)
-    inversion H; subst. rewrite (pcof_of_pcu _ _ _ _ (pcu_set_pc _ t _)), sub_set_pc.
-    cbn [tasks set_table set_tasks]. rewrite sub_drain. exact O.
+    cbv zeta in H. inversion H; subst. rewrite (pcof_of_pcu _ _ _ _ (pcu_set_pc _ t _)), sub_set_pc.
+    cbn [tasks set_table set_tasks lin set_pc set_task]. rewrite sub_drain, sub_wake.
+    destruct (data_wake s) as (_ & _ & L & _). rewrite L. exact O.
   - (* PC2 *)
     destruct (wr s); inversion H; subst.
     + rewrite (pcof_of_pcu _ _ _ _ (pcu_set_pc _ t _)), sub_set_pc. exact O.
@@ -219,6 +264,7 @@ Proof.
     inversion H; subst.
     destruct (pcof_sub_set_task s t (with_pc (with_sub (tasks s t) (syn_frame sid)) (PW0 WkOpen (syn_frame sid)))) as [P S].
     rewrite P, S. cbn [t_pc with_pc in_hand t_sub with_sub lin set_task set_tasks]. rewrite <- O, app_nil_r. reflexivity.
+  - discriminate.
 Qed.
 
 Lemma mine_none t l : Forall (fun x : witem => fst x <> t) l -> mine t l = [].
